@@ -75,5 +75,15 @@ pub fn all() -> Vec<CheckDef> {
         real: vec!["http_forwarded_stream (serialize_request, ForwardedStreamSource/Sink state machines)", "HttpDownstream", "Http1Codec", "Http2Codec", "DuplexPipe", "TcpForwarder"],
         simulated: vec!["origin server (strict parser, planned responses)", "client", "resolver", "clock"],
         not_run: vec!["TLS", "QUIC/HTTP3"],
+    },
+    CheckDef {
+        property: "C18",
+        scenarios: vec![("services", 100)],
+        level: "exploration",
+        rule: "one service request per run through the real accept loop + TLS listener + SNI demultiplexer (rustls client as peer): ping host, ping markers, speedtest downloads for N in {0,1,2,3,99,100,101,10^9,'01','+1','-1','','1.5',2^32+1}, uploads with Content-Length absent/0/1/valid/120 MiB/120 MiB+1/non-numeric/negative, other paths and methods, reverse proxy by SNI host and by path mask with loopback and non-loopback origins under both egress policies; listener protocol subsets {h1}, {h2}, {h1,h2}; client ALPN lists; with and without credentials; non-trivial = the TLS handshake completed and a request was judged; distinct = distinct world event trace (semantic events only on TLS connections). N = 99/100 only in a few thorough runs.",
+        assumptions: vec![KERNEL, NO_H3, "TLS ciphertext is not part of the trace (rustls draws real entropy): replays reproduce the semantic trace", "HTTP/2 itself rejects a malformed content-length (stream error): accepted as a refusal", "unusual spellings of a valid N ('01', '+1'): refused or served exactly"],
+        real: vec!["Core::listen / listen_tcp / on_new_tls_connection", "TlsListener + rustls server", "TlsDemux", "HttpDemux", "http_ping_handler", "http_speedtest_handler", "reverse_proxy", "Http1Codec", "Http2Codec", "TcpForwarder"],
+        simulated: vec!["listener socket", "client (rustls + h2 clients)", "reverse-proxy origin", "clock"],
+        not_run: vec!["QUIC/HTTP3"],
     }]
 }
